@@ -24,6 +24,7 @@ import (
 	"time"
 
 	"github.com/martian-lang/martian/martian/core"
+	"github.com/martian-lang/martian/martian/util"
 )
 
 type c13TASpec struct {
@@ -38,6 +39,8 @@ type c13TASpec struct {
 	//            child re-attaches to the pipestance directory (mrp restart) and post-processes again.
 	Fault    string `json:"fault,omitempty"`
 	FaultArg int    `json:"fault_arg,omitempty"`
+	// Mapped == "map": the fork keys of the split literal (nil = the default two keys)
+	Keys []string `json:"keys,omitempty"`
 }
 
 type c13TARes struct {
@@ -65,6 +68,10 @@ type c13TARes struct {
 	FaultFails  []string `json:"fault_fails,omitempty"`  // violated assertions on the state right after the fault
 	FaultPoint  string   `json:"fault_point,omitempty"`  // kill: what existed when the child died; crashsim: the simulated point
 	Before0     c13Tree  `json:"before0,omitempty"`      // crashsim: the tree before the simulated partial post-process
+	// mapped over a typed map: the order in which Fork.postProcess visited the fork keys (console log),
+	// and whether it reported "Could not move output files"
+	Order   []string `json:"order,omitempty"`
+	PostErr string   `json:"post_err,omitempty"`
 }
 
 func init() { register("C13W", c13Worker) }
@@ -243,6 +250,7 @@ func c13RunOne(c *Ctx, spec *c13TASpec, prepostFile string) *c13TARes {
 	var preJ *c13J
 	topOuts := path.Join(run.PsDir, run.Ast.Call.Id, "fork0", "_outs")
 	done := make(chan struct{})
+	lg := &c13CapLog{}
 	go func() {
 		defer close(done)
 		var restore func()
@@ -255,6 +263,9 @@ func c13RunOne(c *Ctx, spec *c13TASpec, prepostFile string) *c13TARes {
 			if j, err := c13ParseJSON(b); err == nil {
 				preJ = j
 				c13RecordLeaves(spec.Mapped, j, res.Params, mon)
+			}
+			if spec.Mapped == "map" && os.Getenv("TA_LOG") == "" {
+				util.SetPrintLogger(lg)
 			}
 			switch spec.Fault {
 			case "crashsim":
@@ -293,6 +304,15 @@ func c13RunOne(c *Ctx, spec *c13TASpec, prepostFile string) *c13TARes {
 			}
 		}, func() {
 			// PostProcess has returned; the pipestance is still locked
+			if spec.Mapped == "map" && os.Getenv("TA_LOG") == "" {
+				util.SetPrintLogger(devNullLogger{})
+				if preJ != nil && preJ.K == 'O' {
+					res.Order, _ = c13ForkOrder(lg.sb.String(), preJ.Keys)
+				}
+				if i := strings.Index(lg.sb.String(), "Could not move output files:"); i >= 0 {
+					res.PostErr = c13Short(lg.sb.String()[i:])
+				}
+			}
 			switch spec.Fault {
 			case "fsize":
 				restore()
@@ -377,6 +397,9 @@ func c13Finish(res *c13TARes, spec *c13TASpec, mon *c13Mon, preJ *c13J, cs *c13C
 		return
 	}
 	c13WalkRecords(spec.Mapped, res.Params, mon, preJ, postJ, psDir)
+	if spec.Mapped == "map" {
+		c13MappedOwnLocation(res.Params, mon, preJ, postJ, psDir)
+	}
 	res.Fails = mon.fails
 	res.Alias = mon.alias
 	res.Leafs = mon.leafs
@@ -635,6 +658,29 @@ func c13TierA(c *Ctx, r *Result) {
 				spec.Name += fmt.Sprintf("-kill%d", spec.FaultArg)
 			}
 		}
+		if spec.Mapped == "map" && spec.Fault == "" && !strings.HasSuffix(spec.Name, "-gen") {
+			// adversarial fork keys through the whole runtime
+			spec.Keys, _ = c13GenKeySet(rng, c13OutNamesOfSrc(spec.Src), true)
+			spec.Src = c13ReplaceKeys(spec.Src, spec.Keys)
+			spec.Name += "-keys"
+		}
+		specs = append(specs, spec)
+	}
+	// top-level calls mapped over a typed map with adversarial fork keys, through the whole runtime
+	nkeys := 36
+	if c.Thorough {
+		nkeys = 400
+	}
+	for i := 0; i < nkeys; i++ {
+		rng := rand.New(rand.NewSource(c.Rng.Int63()))
+		spec := &c13TASpec{Name: fmt.Sprintf("ta-mapkeys-%d", i), Seed: rng.Int63(), Mapped: "map"}
+		sig := c13GenSmallSig(rng, 9)
+		spec.Src = sig.mroDup("map", i%4 == 2, false)
+		if i%5 == 3 {
+			spec.Hook = "mix"
+		}
+		spec.Keys, _ = c13GenKeySet(rng, c13OutNamesOfSrc(spec.Src), true)
+		spec.Src = c13ReplaceKeys(spec.Src, spec.Keys)
 		specs = append(specs, spec)
 	}
 	// deterministic sweeps: every simulated crash point of a few programs, and the kill stream at
@@ -739,6 +785,25 @@ func c13CompareAll(c *Ctx, r *Result, specs []*c13TASpec, results []*c13TARes, c
 		}
 		input := map[string]interface{}{"name": res.Name, "mro": spec.Src, "seed": spec.Seed, "mapped": spec.Mapped, "hook": spec.Hook,
 			"pre_outs": strip(res.PreOuts), "hooked": res.Hooked}
+		keyClass := ""
+		if spec.Mapped == "map" {
+			if pj, err := c13ParseJSON([]byte(res.PreOuts)); err == nil && pj.K == 'O' {
+				outsRoot := filepath.Join(res.PsDir, "outs")
+				dirs, class := c13KeyDirsGo(outsRoot, pj.Keys)
+				keyClass = class
+				r.hist("tierA:mapped:map:keys:" + class)
+				if spec.Keys != nil {
+					c13CheckKeyDirs(c, r, outsRoot, pj.Keys, dirs, class)
+				}
+				input["keys"] = pj.Keys
+				input["key_class"] = class
+				input["visited_in_order"] = res.Order
+				if res.PostErr != "" {
+					input["post_err"] = strip(res.PostErr)
+					r.hist("tierA:mapped:map:postprocess-reported-error:" + class)
+				}
+			}
+		}
 		r.count(spec.Src+"|"+strip(res.PreOuts), res.Leafs > 0)
 		if res.ParseErr != "" {
 			r.violate(Violation{Kind: "property", Key: "C13:invalid-json", What: "top-level _outs is not valid JSON after post-processing: " + res.ParseErr,
@@ -752,6 +817,9 @@ func c13CompareAll(c *Ctx, r *Result, specs []*c13TASpec, results []*c13TARes, c
 		}
 		if len(res.Fails) > 0 {
 			key := c13CrashKey(res, "C13:materialise")
+			if keyClass != "" && keyClass != "separable" && key == "C13:materialise" {
+				key = "C13:mapped-key-dirs-overlap"
+			}
 			md := false
 			c13ForEachRecord(spec.Mapped, pre, func(_ string, rec *c13J) {
 				for _, p := range res.Params {
@@ -815,6 +883,33 @@ func c13CompareAll(c *Ctx, r *Result, specs []*c13TASpec, results []*c13TARes, c
 			continue
 		}
 		// model comparison
+		if spec.Mapped == "map" && pre.K == 'O' {
+			// the model runs the forks in the order in which the real code visited them
+			if len(res.Order) == len(pre.Keys) {
+				ordered := &c13J{K: 'O'}
+				for _, k := range res.Order {
+					ordered.Keys = append(ordered.Keys, k)
+					ordered.Vals = append(ordered.Vals, pre.get(k))
+				}
+				pre = ordered
+			} else if keyClass != "separable" {
+				r.hist("tierA:mapped:map:visit-order-unreadable")
+				continue
+			}
+			if keyClass != "separable" {
+				outsRoot := filepath.Join(res.PsDir, "outs")
+				dirs, _ := c13KeyDirsGo(outsRoot, pre.Keys)
+				if c13ForkDirThroughSymlink(res.After, outsRoot, dirs) {
+					r.hist("tierA:mapped:map:model-skipped-symlinked-fork-dir")
+					continue
+				}
+			}
+			if keyClass != "separable" && res.PostErr != "" {
+				// mkdir failures below another fork's file / for unrepresentable names are not modelled
+				r.hist("tierA:mapped:map:model-skipped-syscall-error")
+				continue
+			}
+		}
 		mode := map[string]string{"": "o", "array": "a", "map": "m"}[spec.Mapped]
 		altMode := ""
 		switch {
@@ -835,6 +930,10 @@ func c13CompareAll(c *Ctx, r *Result, specs []*c13TASpec, results []*c13TARes, c
 		parts := strings.Split(reply, "\t")
 		if len(parts) != 2 {
 			r.violate(Violation{Kind: "correspondence", Key: "C13:driver", What: "driver reply: " + c13Short(reply), Input: input, Broken: "driver"})
+			continue
+		}
+		if keyClass != "" && keyClass != "separable" && c13BelowSymlink(res.After, c13ParseTree(parts[1])) {
+			r.hist("tierA:mapped:map:model-skipped-symlinked-fork-dir")
 			continue
 		}
 		post, _ := c13ParseJSON([]byte(res.PostOuts))
